@@ -1,7 +1,7 @@
 CONSTANTS
-  Family = "tmo"
+  Family = "hop"
   Defects = {}
-  Big = FALSE
+  Big = TRUE
 SPECIFICATION Spec
 INVARIANTS HdrImplIsSem HdrLevelOrder OmittedAppends HdrVarResolved PathImplIsSem PrefixWins PathRuleSwapsWholePath HostImplIsSem RedirImplIsSem HopImplIsSem HopBothRewrite PfcImplIsSem TmoImplIsSem TryBelowGlobal EmitCase
 CHECK_DEADLOCK FALSE
